@@ -316,6 +316,9 @@ pub fn run(tier: &str) -> i32 {
     ev.set("link_lines_observed", json!(s.link_lines));
     ev.set("watchdog_inconclusive_runs", json!(s.inconclusive));
     ev.set("known_findings_seen", json!(v.known_seen()));
+    // Engine R: the same oracle over real nun-db processes (src/bin/main.rs, TCP links, signals, timer thread)
+    let real = crate::realparts::c07_real(&v, if thorough { 96 } else { 12 }, seed());
+    ev.set("real_processes", real.to_json());
     ev.violations = v.violation_count();
     ev.assumptions = vec![
         "termination is decided as bounded progress: quiescence within 6000 scheduler steps (more than 20x the largest quiescent run observed)".into(),
@@ -326,6 +329,10 @@ pub fn run(tier: &str) -> i32 {
     ev.write();
     cleanup_scratch();
     let code = v.finish(tier);
+    if code == 0 && real.runs > 0 && (real.runs - real.inconclusive) * 2 < real.runs {
+        println!("INCONCLUSIVE property=C07 reason=the real-process part could judge only {} of {} runs", real.runs - real.inconclusive, real.runs);
+        return 2;
+    }
     if code == 0 && (s.distinct.len() < 200 || s.inconclusive > s.runs / 20) {
         println!("INCONCLUSIVE property=C07 reason=coverage floor not met ({} distinct runs, {} watchdog cases)", s.distinct.len(), s.inconclusive);
         return 2;
